@@ -97,6 +97,44 @@ CLAIMED = {
         note="The class x parameter sweep is enumeration; the simulated part is recovery by another process with a chosen initialisation order. Parameters without a value rule are reported, not judged.",
         technique="crash-and-recover simulation across interpreter boundaries with import-order fault; original object as oracle",
         design="§4 C08"),
+    "C06": dict(
+        level="exploration",
+        text=("Each generated scenario (all seven drivers, seeds incl. 0, 2^32-1, 2^63, 2^64-1) is executed twice in one "
+              "process with the process-global generators reseeded and consumed between all steps with different junk, "
+              "once with seed+1, and for a sample once more in a fresh interpreter under another PYTHONHASHSEED; event "
+              "digests (moves, verdicts, configurations, log and trajectory bytes) must agree / differ accordingly and "
+              "the global generators' states must be untouched by every stretch of driver code."),
+        note="Sampling; digest covers trajectories, move sequences, accept/reject histories and log/trajectory bytes; numpy legacy global and Python random are the globals examined.",
+        technique="deterministic twin execution with global-generator fault injection and fresh-interpreter replay",
+        design="§4 C06"),
+    "C09": dict(
+        level="exploration",
+        text=("The driver's own scheduler is run on generated move tables (intervals, zero weights, minimum counts, cycles "
+              "0-8, step offsets, over-commit attempts) for 50-2000 steps each; every step is checked against the exact "
+              "clauses and the free slots against the multinomial law of the weights (chi-square and dispersion tests "
+              "with a confirmation stage)."),
+        note="Exact clauses are invariants per step; the proportionality/independence clause is statistical with a two-stage decision (false-alarm probability below 1e-9 per table).",
+        technique="deterministic simulation of the scheduler with a reference scheduler model + seeded statistical test with confirmation",
+        design="§4 C09"),
+    "C13": dict(
+        level="exploration",
+        text=("The real force-bias step runs against a calculator returning prescribed forces (zero, +-1e-300, moderate, "
+              "clipped, +-1e300, mixed) with scalar and per-coordinate delta, T over seven decades, masses and mass "
+              "powers; bound, zeta range, single advance, evaluation count and termination (draw budget at the generator "
+              "seam) are invariants of every step; zeta samples are compared with the closed-form Bal-Neyts CDF (KS with "
+              "confirmation stage)."),
+        note="Density clause for |gamma| > 1e-6; KS resolves distribution errors above ~2-7% (D > 2x the alpha=1e-9 critical value after 4x6000 samples).",
+        technique="deterministic simulation with calculator and generator seams; per-step invariants + seeded KS test with confirmation",
+        design="§4 C13"),
+    "C15": dict(
+        level="exploration",
+        text=("Each deployment (Monte Carlo and force-bias drivers, recording observers with positive and negative intervals, "
+              "real logger/trajectory/restart observers on simulated files) is executed as a generated composition of "
+              "run/srun/irun calls with zero-length calls, and as a single run(n) twin with the same seed; call schedule, "
+              "header placement, steps performed per call, final atoms, counter and all file bytes are compared."),
+        note="Sampling over split shapes and entry points; files are SimFiles; twin with the same seed is the oracle for 'splitting changes nothing'.",
+        technique="deterministic twin execution with run-splitting fault (F16) and reference call-schedule model",
+        design="§4 C15"),
 }
 
 NOT_APPLICABLE = {
